@@ -1,0 +1,38 @@
+//! Verification hooks (only compiled with `--cfg parol_verif`).
+//!
+//! Thin public wrappers around crate-private functions so that an external
+//! harness can run them. Nothing in here changes behaviour.
+
+use std::collections::BTreeSet;
+
+use crate::parser::recovery::{EditOp, Recovery};
+use crate::{TerminalIndex, Trans};
+
+/// Edit operation as a small integer: 0 keep, 1 insert, 2 delete, 3 replace.
+pub fn levenshtein_distance(act: &[TerminalIndex], exp: &[TerminalIndex]) -> (usize, Vec<u8>) {
+    let (d, ops) = Recovery::levenshtein_distance(act, exp);
+    (
+        d,
+        ops.iter()
+            .map(|o| match o {
+                EditOp::Keep => 0,
+                EditOp::Insert => 1,
+                EditOp::Delete => 2,
+                EditOp::Replace => 3,
+            })
+            .collect(),
+    )
+}
+
+/// Wrapper around `Recovery::minimal_token_difference`.
+pub fn minimal_token_difference(
+    scanned: &[TerminalIndex],
+    possible: &mut BTreeSet<Vec<TerminalIndex>>,
+) -> Option<Vec<TerminalIndex>> {
+    Recovery::minimal_token_difference(scanned, possible)
+}
+
+/// Wrapper around `Recovery::restore_terminal_strings`.
+pub fn restore_terminal_strings(transitions: &[Trans], prod0: i32) -> BTreeSet<Vec<TerminalIndex>> {
+    Recovery::restore_terminal_strings(transitions, prod0)
+}
